@@ -14,6 +14,7 @@ mod gen;
 mod model;
 mod rng;
 mod scen_common;
+mod scen_fibex;
 mod scen_poll;
 mod scen_read;
 mod scen_slice;
@@ -36,7 +37,9 @@ fn main() {
                 _ => Tier::Quick,
             };
             match refs.iter().find(|s| s.prop() == id) {
-                Some(sc) => driver::run_check(*sc, tier).exit_code(),
+                Some(sc) => {
+                    driver::run_check(*sc, tier).exit_code()
+                }
                 None => {
                     println!("HARNESS-ERROR: no check for property {:?}", id);
                     2
@@ -50,5 +53,6 @@ fn main() {
             2
         }
     };
+    scen_fibex::cleanup_base();
     std::process::exit(code);
 }
